@@ -1,7 +1,7 @@
 (* C20 — property theorems.  Statements only: each is closed by [exact] of a lemma proved elsewhere.
    [E : env] stands for the expression parser/printer and the evaluation of transforms (C02/C03), arbitrary here.
    [put_ports] is the restore with the two proposed repairs (fixes/C20-*.diff); [put_ports_gen V] is either version. *)
-From QT Require Import C20.Lemmas C20.FlagsThm C20.PortsThm C20.OtherThm C20.Example.
+From QT Require Import C20.Lemmas C20.FlagsThm C20.PortsThm C20.OtherThm C20.AcceptThm C20.Example.
 Open Scope string_scope.
 Open Scope list_scope.
 Open Scope Z_scope.
@@ -79,12 +79,57 @@ Theorem C20_peripherals_roundtrip : forall known auto st dyn ps2 ps2',
 Proof. exact peripherals_roundtrip. Qed.
 Print Assumptions C20_peripherals_roundtrip.
 
+(* ---- acceptance: an unaltered backup is never refused, so the round trip holds without the proviso "if accepted" ----
+   [acceptable r E s1 s2] is a boolean test: every attribute value of the source lies in its domain, transforms refer to their
+   own port, virtual ports have definitions POST /ports accepts, [r] is a topological order of the source's dependency graph
+   (every reference of an expression to another port goes to a lower rank: the source has no loop), the target may hold as many
+   virtual ports as the source has, and backup support is on. *)
+Theorem C20_ports_backup_accepted : forall E r s1 s2,
+  hub_ok E s1 -> same_hardware s1 s2 -> acceptable r E s1 s2 = true ->
+  exists s2', put_ports E (map JObj (get_ports E s1)) s2 = (s2', None).
+Proof. exact ports_backup_accepted. Qed.
+Print Assumptions C20_ports_backup_accepted.
+
+Theorem C20_ports_roundtrip_total : forall E r s1 s2,
+  hub_ok E s1 -> same_hardware s1 s2 -> acceptable r E s1 s2 = true ->
+  exists s2', put_ports E (map JObj (get_ports E s1)) s2 = (s2', None)
+              /\ docs_equiv E (get_ports E s1) (get_ports E s2').
+Proof. exact ports_roundtrip_total. Qed.
+Print Assumptions C20_ports_roundtrip_total.
+
+Theorem C20_device_roundtrip_total : forall d1 d2,
+  same_device_kind d1 d2 -> device_acceptable d1 d2 = true ->
+  exists d2', put_device (get_device d1) d2 = (d2', None)
+              /\ device_equiv (get_device d1) (get_device d2') /\ dv_hashes d2' = dv_hashes d2.
+Proof. exact device_roundtrip_total. Qed.
+Print Assumptions C20_device_roundtrip_total.
+
+Theorem C20_slaves_roundtrip_total : forall s1 s2,
+  (forall e, In e (sl_devices s1) -> slave_json e = e) ->
+  forallb slave_entry_ok (sl_devices s1) = true -> endpoints_distinct (sl_devices s1) = true ->
+  exists s2', put_slave_devices (get_slave_devices s1) s2 = (s2', None)
+              /\ get_slave_devices s2' = get_slave_devices s1 /\ sl_updating s2' = true /\ sl_events s2' = true.
+Proof. exact slaves_roundtrip_total. Qed.
+Print Assumptions C20_slaves_roundtrip_total.
+
+Theorem C20_peripherals_roundtrip_total : forall known auto st dyn ps2,
+  (forall e, In e st -> is_static e = true) ->
+  (forall e, In e dyn -> is_static e = false /\ peripheral_json auto e = e) ->
+  (forall e, In e dyn -> driver_known known e = true) ->
+  ids_distinct (st ++ dyn) = true ->
+  filter is_static ps2 = st ->
+  exists ps2', put_peripherals known auto (get_peripherals (st ++ dyn)) ps2 = (ps2', None)
+               /\ get_peripherals ps2' = get_peripherals (st ++ dyn).
+Proof. exact peripherals_roundtrip_total. Qed.
+Print Assumptions C20_peripherals_roundtrip_total.
+
 (* non-vacuity: a source hub (an expression between two hardware ports, a virtual port with transforms and a value, a disabled
    virtual port named like a slave's port) and a target hub with other virtual ports and a stale expression that would close a
    loop meet the premises; the restore is accepted, creates the virtual ports, drops the target's, forgets the stale expression,
    and the rejection path keeps its promises *)
 Example C20_nonvacuous :
   hub_ok ex_env ex_src /\ same_hardware ex_src ex_tgt
+  /\ acceptable ex_rank ex_env ex_src ex_tgt = true            (* the premises of C20_ports_roundtrip_total hold *)
   /\ (let '(h', err) := put_ports ex_env (map JObj (get_ports ex_env ex_src)) ex_tgt in
       err = None
       /\ map p_id (h_ports h') = ["hw2"; "hw1"; "s1.x"; "v"]
@@ -96,5 +141,23 @@ Example C20_nonvacuous :
       option_map (fun e => (e_code e, e_id e, e_field e)) err = Some ("invalid-field", Some (JStr "hw1"), Some "tag")
       /\ h_updating h' = true /\ h_events h' = true /\ map p_id (h_ports h') = ["hw2"; "hw1"]).
 Proof.
-  split; [exact ex_src_ok|]. split; [apply ex_same_hardware; now left|]. vm_compute. repeat split.
+  split; [exact ex_src_ok|]. split; [apply ex_same_hardware; now left|]. split; [vm_compute; reflexivity|]. vm_compute. repeat split.
 Qed.
+
+(* the premises of the other three total theorems are met by concrete documents, and the restores are accepted *)
+Example C20_nonvacuous_other :
+  (let d1 := ex_dev "Living_Room-2" "Source ""hub""" "5e884898da28047151d0e56f8dc6292773603d0d6aabbdd62a11ef721d1542d8" in
+   let d2 := ex_dev "tgt" "" empty_hash in
+   device_acceptable d1 d2 = true
+   /\ option_map (fun d => dv_attrs d) (match put_device (get_device d1) d2 with (d, None) => Some d | _ => None end) = Some (dv_attrs d1)
+   /\ lookup "admin_password" (get_device (fst (put_device (get_device d1) d2))) = Some (JStr ""))      (* kept: still unset *)
+  /\ (let s1 := {| sl_devices := [ex_slave "garage" "10.0.0.1" 120; ex_slave "s1" "10.0.0.2" 0]; sl_updating := true; sl_events := true |} in
+      forallb slave_entry_ok (sl_devices s1) = true /\ endpoints_distinct (sl_devices s1) = true
+      /\ forallb (fun e => entry_eqb (slave_json e) e) (sl_devices s1) = true
+      /\ snd (put_slave_devices (get_slave_devices s1) {| sl_devices := [ex_slave "old" "h" 0]; sl_updating := true; sl_events := true |}) = None)
+  /\ (let known := String.eqb "mock.Driver" in
+      let dyn := [ex_periph "pa"; ex_periph "pb"] in
+      forallb (driver_known known) dyn = true /\ ids_distinct dyn = true
+      /\ forallb (fun e => entry_eqb (peripheral_json (fun _ => "") e) e) dyn = true
+      /\ put_peripherals known (fun _ => "") (get_peripherals dyn) [ex_periph "pc"] = (dyn, None)).
+Proof. vm_compute. repeat split. Qed.
